@@ -33,7 +33,7 @@ def front(chk, need=("harness_release", "driver", "specdriver")):
     """build + obligations + table cross-check. Returns (status, tie_broken: list of reasons)"""
     status = lib.build()
     broken = []
-    for stage in ("translator", "coq_model", "driver", "specdriver", "harness_release", "harness_checked", "engine"):
+    for stage in ("translator", "coq_model", "driver", "specdriver", "harness_release", "harness_checked", "harness_bounds", "scheddriver", "engine"):
         if not status.get(stage, False):
             broken.append("build stage '%s' failed" % stage)
     chk.build_status = status
